@@ -145,7 +145,7 @@ type c09Case struct {
 	data      []byte // decoded CipherValue of EncryptedData (ignored when rawCV is set)
 	rawCV     string // literal CipherValue text (invalid base64 variants); "" = base64 of data
 	keyCV     string // literal EncryptedKey CipherValue; "" = the pool's wrapped key
-	keyLen    int // 1000+n: wrap a symmetric key of n bytes instead of the algorithm's size
+	keyLen    int    // 1000+n: wrap a symmetric key of n bytes instead of the algorithm's size
 	detached  bool
 	embed     *KeyPair
 	rawX509   string // literal X509Certificate text
